@@ -10,6 +10,8 @@ Tie:      API level: merge / join (inner, left, right, outer, leftsemi; on colum
 """
 from __future__ import annotations
 
+import itertools
+
 from sexp import Sym
 
 from props import _dfpart_util as U
@@ -17,7 +19,7 @@ from props import _dfpart_util as U
 PROP = "C39"
 READY = True
 DRIVER = "dm_dfpart"
-LEAN_MODULES = ["DaskModel.Props.C39"]
+LEAN_MODULES = ["DaskModel.Props.C39", "DaskModel.Props.C39Asof", "DaskModel.Props.C39Align"]
 CASE_TIMEOUT_S = 90
 ASSUMPTIONS = ["pandas DataFrame.merge on one pair of partitions is the oracle-checked atom; the Lean `inner/left/leftsemi/"
                "outer/right` specification is diffed against pandas on every merge case (NaN keys match NaN keys)",
@@ -144,29 +146,41 @@ def case_chain(ctx, inp):
 
 
 def case_index_bcast(ctx, inp):
-    """broadcast join whose non-broadcast side is joined on its index"""
+    """broadcast requested for a merge whose larger (non-broadcast) side is joined on its index (since 5e52220: hash join)"""
     import dask
     dd = U.dd()
     left, right = _frames(inp)
-    li = left.set_index("k")
+    how = inp["how"]
     try:
         with dask.config.set(scheduler="sync"):
-            got = dd.from_pandas(li, npartitions=inp["nl"], sort=False).merge(
-                dd.from_pandas(right, npartitions=inp["nr"]), left_index=True, right_on="k", how=inp["how"], broadcast=True).compute()
-    except ValueError as e:
-        sig = ("merge:broadcast:how!=inner:non-broadcast-side-joined-on-index:ValueError"
-               if inp["how"] != "inner" and "Length of values" in str(e) else None)
-        ctx.fail("index broadcast merge raised: " + U.exc_name(e), sig=sig, observed=U.exc_name(e))
+            if inp.get("side") == "right":
+                ri = right.set_index("k")
+                got = dd.from_pandas(left, npartitions=inp["nl"]).merge(
+                    dd.from_pandas(ri, npartitions=inp["nr"], sort=False), left_on="k", right_index=True, how=how, broadcast=True).compute()
+                exp = left.merge(ri, left_on="k", right_index=True, how=how)
+            else:
+                li = left.set_index("k")
+                got = dd.from_pandas(li, npartitions=inp["nl"], sort=False).merge(
+                    dd.from_pandas(right, npartitions=inp["nr"]), left_index=True, right_on="k", how=how, broadcast=True).compute()
+                if how == "leftsemi":
+                    exp = li[li.index.isin(set(right.k))].assign(rv=-1)
+                    got = got.assign(rv=-1)
+                else:
+                    exp = li.merge(right, left_index=True, right_on="k", how=how)
+    except NotImplementedError as e:
+        if how == "leftsemi" and "leftsemi" in str(e):
+            ctx.branch("index-bcast-leftsemi-on-the-index-refused")     # explicit refusal (85278ed: no longer a TypeError)
+            return
+        ctx.fail("index broadcast merge raised: " + U.exc_name(e), observed=U.exc_name(e))
         return
     except Exception as e:  # noqa: BLE001
         ctx.fail("index broadcast merge raised: " + U.exc_name(e), observed=U.exc_name(e))
         return
-    exp = li.merge(right, left_index=True, right_on="k", how=inp["how"])
     g = sorted(zip(got.lv.fillna(-1), got.rv.fillna(-1)))
     e = sorted(zip(exp.lv.fillna(-1), exp.rv.fillna(-1)))
     if g != e:
         ctx.fail("index broadcast merge differs from pandas", observed=g[:20], expected=e[:20])
-    ctx.branch("index-bcast-" + inp["how"])
+    ctx.branch("index-bcast-" + how + "-" + inp.get("side", "left"))
 
 
 def case_join(ctx, inp):
@@ -298,8 +312,257 @@ def case_asof(ctx, inp):
     ctx.branch("asof-" + inp["direction"])
 
 
+
+# ---------------------------------------------------------------------------------------------------------------------
+# merge_asof: pair_partitions / padding rows / the planned computation (Model/MergeAsof.lean, Props/C39Asof.lean)
+# ---------------------------------------------------------------------------------------------------------------------
+
+def _plan_lean(plan):
+    return [[[j, Sym("none") if lo is None else int(lo), Sym("none") if up is None else int(up)] for j, lo, up in J] for J in plan]
+
+
+def case_pair_partitions(ctx, inp):
+    """multi.pair_partitions vs Lean `pairPartitions`; the certificate `planOK` of the soundness theorem on the REAL plan"""
+    U.dd()
+    from dask.dataframe.multi import pair_partitions
+    L, R = inp["L"], inp["R"]
+    try:
+        real_plan = pair_partitions(tuple(L), tuple(R))
+        real = ["ok", [[[j, lo, up] for j, lo, up in J] for J in real_plan]]
+    except IndexError:
+        real = ["raised"]
+    model = ctx.lean(Sym("pair-partitions"), L, R)
+    ctx.eq("pair_partitions", model, real)
+    if real[0] == "ok":
+        ok = ctx.lean(Sym("pair-plan-ok"), L, R, _plan_lean(real_plan))
+        if ok is not True:
+            ctx.fail("the plan of pair_partitions fails the certificate planOK (some left key would meet the wrong right partition, "
+                     "or the pieces do not tile the left partition)", observed=real[1])
+        npieces = sum(len(J) for J in real_plan)
+        ctx.branch("pairs-%s" % ("1-piece-each" if npieces == len(real_plan) else "split-left-partitions"))
+        if len(L) >= 2 and any(L[-1] == r for r in R[1:-1]):
+            ctx.branch("pairs-last-left-division-on-a-right-boundary")
+        if any(lo is None and j > 0 for J in real_plan for j, lo, up in J[:1]):
+            ctx.branch("pairs-left-partition-starts-inside-a-right-partition")
+        if L[0] < R[0]:
+            ctx.branch("pairs-left-starts-before-right")
+        if L[-1] > R[-1]:
+            ctx.branch("pairs-left-ends-after-right")
+
+
+def _asof_opts(inp):
+    tol = inp.get("tolerance")
+    return [Sym(inp["direction"]), inp.get("exact") is not False, Sym("none") if tol is None else int(tol)]
+
+
+def _asof_kw(inp):
+    kw = {"direction": inp["direction"]}
+    if inp.get("tolerance") is not None:
+        kw["tolerance"] = inp["tolerance"]
+    if inp.get("exact") is False:
+        kw["allow_exact_matches"] = False
+    return kw
+
+
+def _number(parts, start=0):
+    out, pos = [], start
+    for ks in parts:
+        out.append([[int(k), pos + t] for t, k in enumerate(ks)])
+        pos += len(ks)
+    return out
+
+
+def case_asof_spec(ctx, inp):
+    """pandas.merge_asof on one pair of frames vs the Lean specification `asof` (duplicate keys, ties, tolerance, strict)"""
+    import pandas as pd
+    lt, rt = sorted(inp["lt"]), sorted(inp["rt"])
+    left = pd.DataFrame({"lv": range(len(lt))}, index=pd.Index(lt, dtype="int64"))
+    right = pd.DataFrame({"rv": range(len(rt))}, index=pd.Index(rt, dtype="int64"))
+    exp = pd.merge_asof(left, right, left_index=True, right_index=True, **_asof_kw(inp))
+    model = ctx.lean(Sym("asof-spec"), _asof_opts(inp), [[k, i] for i, k in enumerate(lt)], [[k, i] for i, k in enumerate(rt)])
+    ctx.eq("pandas.merge_asof vs Lean asof", model, [[int(a), None if b != b else int(b)] for a, b in zip(exp.lv, exp.rv)])
+    ctx.branch("asof_spec-%s%s%s" % (inp["direction"], "-tol" if inp.get("tolerance") is not None else "", "-strict" if inp.get("exact") is False else ""))
+    if len(set(rt)) < len(rt):
+        ctx.branch("asof_spec-duplicate-right-keys")
+
+
+def case_asof_pads(ctx, inp):
+    """compute_tails / compute_heads (the prefix / suffix reductions) vs Lean `tailOf` / `headOf`"""
+    import dask
+    U.dd()
+    from dask.dataframe.dask_expr._merge_asof import compute_heads, compute_tails
+    dr = U.frame_from_parts(inp["Rk"], divisions=inp["R"])
+    e = dr.optimize(fuse=False).expr.lower_completely()
+    full = dict(e.__dask_graph__())
+    full.update(compute_tails(e, "c39-tails"))
+    full.update(compute_heads(e, "c39-heads"))
+    n = len(inp["Rk"])
+    tails = [[int(v) for v in x.v] for x in dask.get(full, [("c39-tails", j) for j in range(n)])]
+    heads = [[int(v) for v in x.v] for x in dask.get(full, [("c39-heads", j) for j in range(n)])]
+    model = ctx.lean(Sym("asof-pads"), _number(inp["Rk"]))
+    ctx.eq("tails: last row of the most recent non-empty partition before j", model[0], tails)
+    ctx.eq("heads: first row of the next non-empty partition after j", model[1], heads)
+    ctx.branch("asof_pads-n=%s%s" % ("pow2" if n & (n - 1) == 0 else "other", "-empty-partitions" if any(not p for p in inp["Rk"]) else ""))
+
+
+def case_asof_plan(ctx, inp):
+    """dd.merge_asof on frames with explicit partitions and divisions: every output partition, row by row in order, vs the
+    Lean plan (`planOut` on the real pair_partitions plan) and vs pandas.merge_asof on the whole frames"""
+    import dask
+    import pandas as pd
+    dd = U.dd()
+    from dask.dataframe.multi import pair_partitions
+    L, R, Lk, Rk = inp["L"], inp["R"], inp["Lk"], inp["Rk"]
+    dl = U.frame_from_parts(Lk, divisions=L).rename(columns={"v": "lv"})
+    dr = U.frame_from_parts(Rk, divisions=R).rename(columns={"v": "rv"})
+    kw = _asof_kw(inp)
+    try:
+        with dask.config.set(scheduler="sync"):
+            r = dd.merge_asof(dl, dr, left_index=True, right_index=True, **kw)
+            parts = U.partitions(r)
+            divs = list(r.divisions)
+    except Exception as e:  # noqa: BLE001
+        ctx.fail("merge_asof raised: " + U.exc_name(e), observed=U.exc_name(e))
+        return
+    got = [[[int(a), None if b != b else int(b)] for a, b in zip(p.lv, p.rv)] for p in parts]
+    lt = [k for p in Lk for k in p]
+    rt = [k for p in Rk for k in p]
+    left = pd.DataFrame({"lv": range(len(lt))}, index=pd.Index(lt, dtype="int64"))
+    right = pd.DataFrame({"rv": range(len(rt))}, index=pd.Index(rt, dtype="int64"))
+    exp = pd.merge_asof(left, right, left_index=True, right_index=True, **kw)
+    e = [[int(a), None if b != b else int(b)] for a, b in zip(exp.lv, exp.rv)]
+    flat = [x for p in got for x in p]
+    if flat != e:
+        ctx.fail(f"merge_asof({kw}) differs from pandas (rows in order)", observed=flat[:25], expected=e[:25])
+    if len(L) > 2 or len(R) > 2:
+        plan = pair_partitions(tuple(L), tuple(R))
+        model = ctx.lean(Sym("asof-plan"), _asof_opts(inp), _plan_lean(plan), _number(Lk), _number(Rk))
+        ctx.eq("merge_asof partitions (Lean planOut on the real plan vs dask)", model, got)
+        if ctx.lean(Sym("pair-plan-ok"), L, R, _plan_lean(plan)) is not True:
+            ctx.fail("the plan used by merge_asof fails the certificate", observed=[list(map(list, J)) for J in plan])
+    if divs[0] is not None:
+        why = U.truthful(divs, parts)
+        if why:
+            ctx.fail("merge_asof result not truthful: " + why, observed=[divs, [list(p.index) for p in parts]])
+    ctx.branch("asof_plan-%s%s%s" % (inp["direction"], "-tol" if inp.get("tolerance") is not None else "", "-strict" if inp.get("exact") is False else ""))
+    if any(not p for p in Rk):
+        ctx.branch("asof_plan-empty-right-partition")
+    if lt and any(lt[-1] == r for r in R[1:-1]):
+        ctx.branch("asof_plan-last-left-key-on-a-right-boundary")
+
+
+# ---------------------------------------------------------------------------------------------------------------------
+# index joins on aligned divisions / interleaved concat (Model/Align.lean, Props/C39Align.lean)
+# ---------------------------------------------------------------------------------------------------------------------
+
+def _keys_rows(parts, start=0):
+    return _number(parts, start)
+
+
+def case_index_join_plan(ctx, inp):
+    """fully indexed merge of frames with explicit partitions and known divisions: common divisions vs Lean `unionDivs`,
+    both sides repartitioned to them (rows kept, truthful), every output partition vs Lean `alignedJoin` on the aligned
+    partitions, all rows vs pandas"""
+    import dask
+    dd = U.dd()
+    L, R, Lk, Rk, how = inp["L"], inp["R"], inp["Lk"], inp["Rk"], inp["how"]
+    dl = U.frame_from_parts(Lk, divisions=L).rename(columns={"v": "lv"})
+    dr = U.frame_from_parts(Rk, divisions=R).rename(columns={"v": "rv"})
+    try:
+        with dask.config.set(scheduler="sync"):
+            r = dl.merge(dr, left_index=True, right_index=True, how=how)
+            divs = list(r.divisions)
+            parts = U.partitions(r)
+            d = ctx.lean(Sym("union-divs"), [L, R])
+            al = U.partitions(dl.repartition(divisions=d, force=True))
+            ar = U.partitions(dr.repartition(divisions=d, force=True))
+    except Exception as e:  # noqa: BLE001
+        ctx.fail(f"index merge(how={how}) raised: " + U.exc_name(e), observed=U.exc_name(e))
+        return
+    if len(Lk) > 1 and len(Rk) > 1:
+        ctx.eq("divisions of a fully indexed merge = unique(merge_sorted(left, right))", d, divs)
+        # the alignment step: rows kept in order, partitions truthful for the common divisions (hypotheses of index_join_eq_global)
+        for side, aligned, src in (("left", al, Lk), ("right", ar, Rk)):
+            if [int(k) for p in aligned for k in p.index] != [k for p in src for k in p]:
+                ctx.fail(f"repartition of the {side} side to the common divisions does not keep the rows in order", observed=[list(p.index) for p in aligned])
+            why = U.truthful(d, aligned)
+            if why:
+                ctx.fail(f"{side} side not truthful for the common divisions: " + why, observed=[d, [list(p.index) for p in aligned]])
+        keys = sorted({int(k) for p in al + ar for k in p.index})
+        cls = ctx.lean(Sym("class-of"), d, keys)
+        for aligned in (al, ar):
+            for i, p in enumerate(aligned):
+                for k in p.index:
+                    if cls[keys.index(int(k))] != i:
+                        ctx.disagree("classOf: interval of a key of an aligned partition", cls[keys.index(int(k))], i)
+        model = ctx.lean(Sym("aligned-join"), Sym(how), [[[int(k), int(v)] for k, v in zip(p.index, p.lv)] for p in al],
+                         [[[int(k), int(v)] for k, v in zip(p.index, p.rv)] for p in ar])
+        got = [sorted([[int(k), None if a != a else int(a), None if b != b else int(b)] for k, a, b in zip(p.index, p.lv, p.rv)], key=repr)
+               for p in parts]
+        ctx.eq("partitions of the index merge (Lean alignedJoin on the aligned partitions vs dask, multisets)",
+               [sorted(p, key=repr) for p in model], got)
+    import pandas as pd
+    left = pd.DataFrame({"lv": range(sum(map(len, Lk)))}, index=pd.Index([k for p in Lk for k in p], dtype="int64"))
+    right = pd.DataFrame({"rv": range(sum(map(len, Rk)))}, index=pd.Index([k for p in Rk for k in p], dtype="int64"))
+    exp = left.merge(right, left_index=True, right_index=True, how=how)
+    g = sorted([[int(k), None if a != a else int(a), None if b != b else int(b)] for p in parts for k, a, b in zip(p.index, p.lv, p.rv)], key=repr)
+    e = sorted([[int(k), None if a != a else int(a), None if b != b else int(b)] for k, a, b in zip(exp.index, exp.lv, exp.rv)], key=repr)
+    if g != e:
+        ctx.fail(f"index merge(how={how}) differs from pandas as a multiset of rows", observed=g[:25], expected=e[:25])
+    if divs and divs[0] is not None:
+        why = U.truthful(divs, parts)
+        if why:
+            ctx.fail("index merge result not truthful: " + why, observed=[divs, [list(p.index) for p in parts]])
+    ctx.branch(f"index_join_plan-{how}-" + ("aligned" if len(Lk) > 1 and len(Rk) > 1 else "single-partition-side"))
+    if set(L) == set(R):
+        ctx.branch("index_join_plan-same-divisions")
+
+
+def case_interleave_plan(ctx, inp):
+    """concat(frames with known overlapping divisions, interleave_partitions=True): divisions vs Lean `unionDivsAll`, every
+    output partition vs Lean `interleave` on the aligned partitions; rows = rows of all frames; truthful"""
+    import dask
+    dd = U.dd()
+    frames, pos = [], 0
+    for f in inp["frames"]:
+        n = sum(map(len, f["keys"]))
+        d = U.frame_from_parts(f["keys"], divisions=f["divs"])
+        d = d.assign(v=d.v + pos)
+        frames.append(d)
+        pos += n
+    try:
+        with dask.config.set(scheduler="sync"):
+            r = dd.concat(frames, interleave_partitions=True)
+            divs = list(r.divisions)
+            parts = U.partitions(r)
+    except Exception as e:  # noqa: BLE001
+        ctx.fail("concat(interleave_partitions=True) raised: " + U.exc_name(e), observed=U.exc_name(e))
+        return
+    got = [[int(v) for v in p.v] for p in parts]
+    allrows = sorted(v for p in got for v in p)
+    if allrows != list(range(pos)):
+        ctx.fail("concat(interleave_partitions=True) does not return exactly the rows of all frames", observed=allrows[:40], expected=pos)
+    if divs[0] is not None:
+        why = U.truthful(divs, parts)
+        if why:
+            ctx.fail("interleaved concat not truthful: " + why, observed=[divs, [list(p.index) for p in parts]])
+    ds = [f["divs"] for f in inp["frames"]]
+    mono = all(a[-1] < b[0] for a, b in zip(ds, ds[1:]))
+    if not mono:
+        d = ctx.lean(Sym("union-divs"), ds) if len(ds) != 2 else ctx.lean(Sym("union-divs"), [ds[0], ds[1]])
+        ctx.eq("divisions of the interleaved concat = unique(merge_sorted(all divisions))", d, divs)
+        with dask.config.set(scheduler="sync"):
+            aligned = [U.partitions(f.repartition(divisions=d, force=True)) for f in frames]
+        model = ctx.lean(Sym("interleave"), len(d) - 1, [[[[int(k), int(v)] for k, v in zip(p.index, p.v)] for p in fr] for fr in aligned])
+        ctx.eq("partitions of the interleaved concat (Lean interleave on the aligned partitions vs dask)", model, got)
+        ctx.branch("interleave_plan-%d-frames" % len(frames))
+    else:
+        ctx.branch("interleave_plan-monotonic-divisions-stacked")
+
 CASES = {"merge": case_merge, "join": case_join, "concat": case_concat, "asof": case_asof, "chain": case_chain,
-         "index_bcast": case_index_bcast}
+         "index_bcast": case_index_bcast, "pair_partitions": case_pair_partitions, "asof_spec": case_asof_spec,
+         "asof_pads": case_asof_pads, "asof_plan": case_asof_plan,
+         "index_join_plan": case_index_join_plan, "interleave_plan": case_interleave_plan}
 
 
 def _keys(rng, n, hi, na):
@@ -309,7 +572,7 @@ def _keys(rng, n, hi, na):
     return ks
 
 
-def generate(ctx):
+def _gen_api(ctx):
     rng = ctx.rng
     for _ in range(ctx.n(170, 1700)):
         nl, nr = rng.randint(0, 14), rng.randint(0, 14)
@@ -352,10 +615,14 @@ def generate(ctx):
                         "nb": rng.choice([12, 20, 32, 40]), "ns": rng.choice([1, 2, 2, 3]), "nt": rng.randint(1, 6),
                         "how1": rng.choice(["inner", "inner", "left"]), "how2": rng.choice(["inner", "left", "outer"]),
                         "broadcast2": rng.choice([None, False])}
-    for _ in range(ctx.n(12, 120)):
+    for _ in range(ctx.n(20, 200)):
         nl, nr = rng.randint(2, 14), rng.randint(2, 14)
         yield "index_bcast", {"lk": _keys(rng, nl, 6, False), "rk": _keys(rng, nr, 6, False), "nl": rng.randint(1, 5), "nr": rng.randint(1, 5),
-                              "how": rng.choice(["inner", "left", "right"])}
+                              "how": rng.choice(["inner", "left", "left", "right", "leftsemi"]), "side": "left"}
+    for _ in range(ctx.n(8, 80)):
+        nl, nr = rng.randint(2, 14), rng.randint(2, 14)
+        yield "index_bcast", {"lk": _keys(rng, nl, 6, False), "rk": _keys(rng, nr, 6, False), "nl": rng.randint(1, 5), "nr": rng.randint(1, 5),
+                              "how": rng.choice(["inner", "left", "right", "right"]), "side": "right"}
     # merge_asof around partition boundaries: the left frame's last key equals a key of the right frame that starts a
     # later right partition
     for _ in range(ctx.n(30, 300)):
@@ -370,3 +637,125 @@ def generate(ctx):
         yield "asof", {"lt": [rng.randint(0, 30) for _ in range(nl)], "rt": [rng.randint(0, 30) for _ in range(nr)],
                        "nl": rng.randint(1, 4), "nr": rng.randint(1, 4), "direction": rng.choice(["backward", "forward", "nearest"]),
                        "tolerance": rng.choice([None, None, 3]), "exact": rng.choice([None, None, False])}
+
+
+def _sorted_divs(rng, nparts, lo, hi, dup_last=None, dup_inside=0.1):
+    """non-decreasing division vector: strictly increasing except (sometimes) the last two / an inner repeat (empty partition)"""
+    d = U.rand_divisions(rng, nparts, lo=lo, hi=max(hi, lo + nparts + 1), single_last=dup_last)
+    if len(d) > 2 and rng.random() < dup_inside:
+        t = rng.randrange(1, len(d) - 1)
+        d[t] = d[t - 1]
+    return sorted(d)
+
+
+def _gen_pairs(ctx):
+    rng = ctx.rng
+    for _ in range(ctx.n(300, 3000)):
+        n, m = rng.randint(1, 4), rng.randint(1, 5)
+        lo = rng.choice([0, 0, 3, 8])
+        L = _sorted_divs(rng, n, lo, lo + rng.choice([4, 8, 14]))
+        R = _sorted_divs(rng, m, rng.choice([0, 0, 2, 6]), rng.choice([6, 12, 20]))
+        if rng.random() < 0.35 and len(R) > 2:
+            L[-1] = R[rng.randrange(1, len(R) - 1)]        # the left frame ends on a right partition boundary
+            L = sorted(L)
+        if rng.random() < 0.2 and len(R) > 2:
+            L[0] = R[rng.randrange(1, len(R) - 1)]
+            L = sorted(L)
+        yield "pair_partitions", {"L": L, "R": R}
+    if ctx.thorough():
+        # exhaustive: every non-decreasing L (2..4 entries) and R (2..4 entries) over 0..4
+        vecs = [list(v) for k in (2, 3, 4) for v in itertools.combinations_with_replacement(range(5), k)]
+        for L in vecs:
+            for R in vecs:
+                yield "pair_partitions", {"L": L, "R": R}
+
+
+def _rand_asof_opts(rng):
+    return {"direction": rng.choice(["backward", "backward", "forward", "nearest"]),
+            "tolerance": rng.choice([None, None, None, 1, 3]), "exact": rng.choice([None, None, False])}
+
+
+def _gen_asof_spec(ctx):
+    rng = ctx.rng
+    for _ in range(ctx.n(150, 1500)):
+        hi = rng.choice([4, 8, 20])
+        d = {"lt": [rng.randint(0, hi) for _ in range(rng.randint(0, 8))], "rt": [rng.randint(0, hi) for _ in range(rng.randint(0, 8))]}
+        d.update(_rand_asof_opts(rng))
+        yield "asof_spec", d
+
+
+def _gen_asof_pads(ctx):
+    rng = ctx.rng
+    for _ in range(ctx.n(40, 400)):
+        m = rng.randint(1, 9)
+        R = U.rand_divisions(rng, m, hi=40)
+        yield "asof_pads", {"R": R, "Rk": U.rand_truthful_parts(rng, R, maxrows=3, p_empty=0.4)}
+
+
+def _gen_asof_plan(ctx):
+    rng = ctx.rng
+    for _ in range(ctx.n(110, 1100)):
+        n, m = rng.randint(1, 4), rng.randint(1, 5)
+        L = U.rand_divisions(rng, n, lo=rng.choice([0, 0, 4]), hi=rng.choice([12, 20]))
+        R = U.rand_divisions(rng, m, lo=rng.choice([0, 0, 3]), hi=rng.choice([10, 20, 26]))
+        if rng.random() < 0.4 and len(R) > 2 and R[1] > L[0]:
+            b = R[rng.randrange(1, len(R) - 1)]
+            if b > L[-2] if len(L) > 1 else True:
+                L[-1] = b                                   # the left frame's last division (and key) on a right boundary
+        Lk = U.rand_truthful_parts(rng, L, maxrows=4, p_empty=0.15)
+        Rk = U.rand_truthful_parts(rng, R, maxrows=4, p_empty=0.25)
+        if Lk and rng.random() < 0.6:
+            Lk[-1] = sorted(Lk[-1] + [L[-1]])              # a key equal to the last division
+        d = {"L": L, "R": R, "Lk": Lk, "Rk": Rk}
+        d.update(_rand_asof_opts(rng))
+        yield "asof_plan", d
+    if ctx.thorough():
+        # exhaustive small space: 2 left x 2 right partitions, divisions over 0..3, one key per slot
+        for L in ([0, 1, 3], [0, 2, 3], [1, 2, 3], [0, 2, 2]):
+            for R in ([0, 1, 3], [0, 2, 3], [1, 2, 2], [0, 1, 1]):
+                for lkeys in itertools.product(range(4), repeat=2):
+                    for rkeys in itertools.product(range(4), repeat=2):
+                        def ok(d, ks):
+                            return d[0] <= ks[0] < d[1] and d[1] <= ks[1] <= d[2]
+                        if ok(L, lkeys) and ok(R, rkeys):
+                            for direction in ("backward", "forward", "nearest"):
+                                for exact in (None, False):
+                                    yield "asof_plan", {"L": L, "R": R, "Lk": [[lkeys[0]], [lkeys[1]]], "Rk": [[rkeys[0]], [rkeys[1]]],
+                                                        "direction": direction, "tolerance": None, "exact": exact}
+
+
+def _gen_align(ctx):
+    rng = ctx.rng
+    for _ in range(ctx.n(90, 900)):
+        n, m = rng.randint(1, 4), rng.randint(1, 4)
+        L = U.rand_divisions(rng, n, lo=rng.choice([0, 0, 4]), hi=rng.choice([12, 20]))
+        R = list(L) if rng.random() < 0.15 else U.rand_divisions(rng, m, lo=rng.choice([0, 0, 3]), hi=rng.choice([10, 20, 26]))
+        yield "index_join_plan", {"L": L, "R": R, "Lk": U.rand_truthful_parts(rng, L, maxrows=4, p_empty=0.2),
+                                  "Rk": U.rand_truthful_parts(rng, R, maxrows=4, p_empty=0.2),
+                                  "how": rng.choice(["inner", "left", "right", "outer"])}
+    for _ in range(ctx.n(50, 500)):
+        k = rng.randint(2, 3)
+        frames = []
+        for i in range(k):
+            lo = i * 12 if rng.random() < 0.2 else rng.choice([0, 0, 3])
+            d = U.rand_divisions(rng, rng.randint(1, 3), lo=lo, hi=lo + rng.choice([8, 14]))
+            frames.append({"divs": d, "keys": U.rand_truthful_parts(rng, d, maxrows=3, p_empty=0.2)})
+        yield "interleave_plan", {"frames": frames}
+
+
+def _interleave(streams):
+    """round-robin over the generator streams, so that a deadline cuts all of them proportionally"""
+    its = [iter(x) for x in streams]
+    while its:
+        nxt = []
+        for it in its:
+            try:
+                yield next(it)
+                nxt.append(it)
+            except StopIteration:
+                pass
+        its = nxt
+
+
+def generate(ctx):
+    yield from _interleave([_gen_pairs(ctx), _gen_api(ctx), _gen_asof_spec(ctx), _gen_asof_plan(ctx), _gen_align(ctx), _gen_asof_pads(ctx)])
